@@ -39,6 +39,8 @@ def run(ctx):
     ctx.rule = ("(a) a slice of every program family (custom msg/query types, interfaces in all three custom modes, reply tables with partial coverage, generic contracts, "
                 "overridden entry points, forwarded attributes) compiled in a crate whose only import of the framework is `svx = { package = \"sylvia\" }`; (b) one generic "
                 "contract + interface with an associated type per candidate name A..Z, Msg, Query, Param, Data, Exec, Custom, Item (with reply handlers and multitest helpers); "
+                "(c) a crate that imports nothing but the framework (all paths written out; plain and generic contract, interface, reply handler, with and without "
+                "entry points) checked under several feature sets of the framework (mt without cosmwasm_1_2, no features, ..) as `sylvia` and as `svx`; "
                 "every program must compile (a refusal is a violation with the rustc diagnostic as witness) and pass the C01/C02/C07/C08 monitors; "
                 "non-trivial+distinct = the monitors' own cases on these programs")
     ctx.assumptions = ["names sylvia documents as reserved on interfaces (Error, ExecC, QueryC) are not candidates",
@@ -60,3 +62,81 @@ def run(ctx):
             ctx.cov["names_swept"] = families_extra.CANDIDATE_NAMES
         else:
             ctx.sample({"alias_crate_dependency": "svx = { package = \"sylvia\", path = .. }", "programs": [p["name"] for p in fam.progs][:8]})
+    feature_sets(ctx)
+
+
+# A crate that imports nothing but the framework crate itself, every path written out: whatever the generated code names,
+# it has to name through `{sv}::..` -- in every feature set (some branches of the multitest helpers exist only without
+# `cosmwasm_1_2`, and cargo unifies the features of everything built in one invocation, so the corpus never compiles them).
+BARE_TEMPLATE = """pub mod iface {{
+    #[{sv}::interface]
+    pub trait Counter {{
+        type Error: From<{sv}::cw_std::StdError>;
+        #[sv::msg(exec)]
+        fn bump(&self, ctx: {sv}::ctx::ExecCtx, by: u32) -> Result<{sv}::cw_std::Response, Self::Error>;
+        #[sv::msg(query)]
+        fn count(&self, ctx: {sv}::ctx::QueryCtx) -> Result<u32, Self::Error>;
+        #[sv::msg(sudo)]
+        fn wipe(&self, ctx: {sv}::ctx::SudoCtx) -> Result<{sv}::cw_std::Response, Self::Error>;
+    }}
+}}
+pub struct Contract{gdecl}{gfield};
+impl{gdecl} iface::Counter for Contract{gdecl}{gwhere} {{
+    type Error = {sv}::cw_std::StdError;
+    fn bump(&self, _ctx: {sv}::ctx::ExecCtx, _by: u32) -> Result<{sv}::cw_std::Response, Self::Error> {{ Ok({sv}::cw_std::Response::new()) }}
+    fn count(&self, _ctx: {sv}::ctx::QueryCtx) -> Result<u32, Self::Error> {{ Ok(1) }}
+    fn wipe(&self, _ctx: {sv}::ctx::SudoCtx) -> Result<{sv}::cw_std::Response, Self::Error> {{ Ok({sv}::cw_std::Response::new()) }}
+}}
+{ep}#[{sv}::contract]
+#[sv::messages(iface)]
+#[sv::features(replies)]
+impl{gdecl} Contract{gdecl}{gwhere} {{
+    pub fn new() -> Self {{ Contract{gnew} }}
+    #[sv::msg(instantiate)]
+    fn instantiate(&self, _ctx: {sv}::ctx::InstantiateCtx, _seed: {garg}) -> {sv}::cw_std::StdResult<{sv}::cw_std::Response> {{ Ok({sv}::cw_std::Response::new()) }}
+    #[sv::msg(exec)]
+    fn poke(&self, _ctx: {sv}::ctx::ExecCtx, _v: Option<{garg}>) -> {sv}::cw_std::StdResult<{sv}::cw_std::Response> {{ Ok({sv}::cw_std::Response::new()) }}
+    #[sv::msg(query)]
+    fn peek(&self, _ctx: {sv}::ctx::QueryCtx) -> Result<u32, {sv}::cw_std::StdError> {{ Ok(1) }}
+    #[sv::msg(sudo)]
+    fn tick(&self, _ctx: {sv}::ctx::SudoCtx) -> {sv}::cw_std::StdResult<{sv}::cw_std::Response> {{ Ok({sv}::cw_std::Response::new()) }}
+    #[sv::msg(migrate)]
+    fn migrate(&self, _ctx: {sv}::ctx::MigrateCtx) -> {sv}::cw_std::StdResult<{sv}::cw_std::Response> {{ Ok({sv}::cw_std::Response::new()) }}
+    #[sv::msg(reply, reply_on=success)]
+    fn done(&self, _ctx: {sv}::ctx::ReplyCtx, #[sv::payload(raw)] _p: {sv}::cw_std::Binary) -> {sv}::cw_std::StdResult<{sv}::cw_std::Response> {{ Ok({sv}::cw_std::Response::new()) }}
+}}
+"""
+
+FEATURE_SETS = [("mt",), (), ("mt", "cosmwasm_1_2"), ("mt", "stargate", "cosmwasm_2_0"), ("stargate", "iterator"), ("mt", "cosmwasm_1_4", "iterator")]
+
+
+def bare_modules(sv):
+    mods = {}
+    plain = dict(sv=sv, gdecl="", gfield="", gwhere="", gnew="", garg="u32")
+    generic = dict(sv=sv, gdecl="<Param>", gfield="(std::marker::PhantomData<Param>)", gnew="(std::marker::PhantomData)", garg="Param",
+                   gwhere=f" where Param: {sv}::serde::Serialize + {sv}::serde::de::DeserializeOwned + Clone + std::fmt::Debug + PartialEq + {sv}::schemars::JsonSchema + 'static")
+    mods["plain_ep"] = BARE_TEMPLATE.format(ep=f"#[{sv}::entry_points]\n", **plain)
+    mods["plain"] = BARE_TEMPLATE.format(ep="", **plain)
+    mods["generic"] = BARE_TEMPLATE.format(ep="", **generic)
+    mods["generic_ep"] = BARE_TEMPLATE.format(ep=f"#[{sv}::entry_points(generics<u64>)]\n", **generic)
+    return mods
+
+
+def feature_sets(ctx):
+    """(c) the bare crate under several feature sets of the framework, imported as `sylvia` and as `svx`."""
+    from .. import rustc_engine
+    sets = FEATURE_SETS[:ctx.pick(2, len(FEATURE_SETS))]
+    for i, fs in enumerate(sets):
+        for sv in (["svx"] if (ctx.quick and i) else ["sylvia", "svx"]):
+            mods = bare_modules(sv)
+            label = "c19f_" + sv + "_" + ("_".join(fs) or "none")
+            res = rustc_engine.verdicts(ctx, label, mods, sv_name=sv, features=list(fs), with_svmon=False)
+            for m, diags in res.items():
+                ctx.ev()
+                if diags:
+                    ctx.violate(f"bare-crate-refused:{diags[0]['message'][:60]}", f"a crate importing only `{sv}` with features {list(fs)} does not compile ({m}): {diags[0]['message'][:160]}",
+                                {"import": sv, "features": list(fs), "module": m, "source": mods[m], "diagnostics": diags[:3]})
+                else:
+                    ctx.nontrivial([sv, list(fs), m])
+                    ctx.count("bare_crate_modules_compiled")
+    ctx.cov["feature_sets"] = [list(fs) for fs in sets]
